@@ -3,7 +3,8 @@
 PROPS = {
     'C03': dict(
         title='Resolution orders are valid linearizations and equal C3 whenever C3 exists',
-        contracts=['C03_ro'], falsifier='C03', modes=['py'], level='proof',
+        contracts=['C03_ro', 'C02_spec'], falsifier='C03', modes=['py'], level='proof',
+        only={'C02_spec': ['interface.py:Specification.changed']},
         level_text='Every obligation generated from the real bodies of the C3 merge functions of ro.py '
                    '(_can_choose_base, _nonempty_bases_ignoring, _find_next_C3_base, _choose_next_base, '
                    '_guess_next_base x2, _merge, mro) against the textbook C3 definition is discharged for all inputs '
@@ -94,8 +95,9 @@ PROPS = {
     ),
     'C05': dict(
         title='Lookup caches are transparent: answers never depend on earlier lookups',
-        contracts=['C04_lookup'], falsifier='C05', modes=['py', 'c'], level='other',
-        only={'C04_lookup': ['adapter.py:AdapterLookupBase._uncached_lookup']},
+        contracts=['C04_lookup', 'C02_spec'], falsifier='C05', modes=['py', 'c'], level='other',
+        only={'C04_lookup': ['adapter.py:AdapterLookupBase._uncached_lookup'],
+              'C02_spec': ['interface.py:Specification.changed', 'interface.py:Specification.__setBases']},
         level_text='_uncached_lookup is verified to subscribe the lookup object to every required specification on every path '
                    '(the invalidation edge spec -> lookup object). Transparency itself is checked bounded: random interleavings '
                    '(<=9 steps) of all entry points with every mutation kind of the statement, compared with cold registries.',
@@ -156,7 +158,8 @@ PROPS = {
     ),
     'C15': dict(
         title='Attribute, tagged-value and invariant resolution all follow the resolution order',
-        contracts=['C15_attrs'], falsifier='C15', modes=['py'], level='other',
+        contracts=['C15_attrs', 'C02_spec'], falsifier='C15', modes=['py'], level='other',
+        only={'C02_spec': ['interface.py:Specification.changed', 'interface.py:Specification.__setBases']},
         level_text='Specification.get (with its per-interface memo), direct, getDescriptionFor/__getitem__, __contains__, '
                    'queryDescriptionFor, namesAndDescriptions(all=True), Element.queryTaggedValue, InterfaceClass.queryTaggedValue and '
                    'getTaggedValue are verified from their real bodies against ONE specification, "the first interface along __iro__ '
